@@ -110,139 +110,7 @@ def run(cx):
         if need not in params:
             raise AnalysisError(f"target() lost parameter {need}")
 
-    rule_params_unchanged(cx, "C12-PARAMS", mi)
-
-    # ---- C12-ORDER ---------------------------------------------------------------------------
-    r = cx.rule("C12-ORDER", "validate_platform_board(platform, board) precedes every other call; ensure_pio and compile_upload happen iff upload; ensure_pio precedes reading/writing anything", floor=8)
-    for p in ("port", "upload", "platform", "board"):
-        r.check(not loc.rebound(p), f"target/param-not-rebound[{p}]", (mi, tgt), f"parameter {p} is reassigned inside target()")
-
-    effectful_before_pio = {"mkdtemp", "write_project", "compile_upload", "read_text", "parse", "emit", "mkdir", "write_text"}
-
-    def on_call(c, state, seen_in_stmt):
-        name = (call_name(c) or getattr(c.func, "attr", "?"))
-        short = name.split(".")[-1]
-        if short == "validate_platform_board":
-            ok = [norm(a) for a in c.args] == ["platform", "board"] and not c.keywords or (
-                not c.args and norm(kwarg(c, "platform") or ast.Constant(0)) == "platform" and norm(kwarg(c, "board") or ast.Constant(0)) == "board")
-            r.check(ok, "target/validate-args", (mi, c), "validate_platform_board must receive (platform, board) unchanged")
-            return
-        for alt in state:
-            have = alt | seen_in_stmt
-            if "called:validate_platform_board" not in have:
-                r.fail(f"target/call[{short}]-before-validation", (mi, c), f"{name}() can run before validate_platform_board(platform, board)")
-                break
-        else:
-            r.ok(f"{short} after validation")
-        if short == "ensure_pio":
-            for alt in state:
-                if "upload" not in alt:
-                    r.fail("target/ensure_pio-without-upload", (mi, c), "ensure_pio() is reachable when upload is not requested (transpile-only use must work without PlatformIO)")
-                    break
-            else:
-                r.ok("ensure_pio only under upload")
-        if short == "compile_upload":
-            for alt in state:
-                if "upload" not in alt:
-                    r.fail("target/compile_upload-without-upload", (mi, c), "compile_upload() is reachable when upload is false")
-                    break
-            else:
-                r.ok("compile_upload only under upload")
-        if short in effectful_before_pio:
-            for alt in state:
-                have = alt | seen_in_stmt
-                if "!upload" in alt:
-                    continue
-                if "called:ensure_pio" not in have:
-                    r.fail(f"target/call[{short}]-before-ensure_pio", (mi, c), f"{name}() can run with upload requested before ensure_pio() has checked for PlatformIO")
-                    break
-            else:
-                r.ok(f"{short} after ensure_pio when uploading")
-
-    an = Order(on_call)
-    out = an.run_function(tgt, frozenset({frozenset()}))
-    exits = [(n, s) for n, s in out.ret]
-    if out.fall is not None:
-        exits.append((tgt, out.fall))
-    if not exits:
-        raise AnalysisError("target() has no normal exit")
-    for n, s in exits:
-        for alt in s:
-            if "!upload" in alt:
-                r.check("called:compile_upload" not in alt, "target/exit[no-upload]-did-not-upload", (mi, n), "a path with upload false reaches the end having called compile_upload")
-            else:
-                r.check("called:compile_upload" in alt and "called:ensure_pio" in alt, "target/exit[upload]-uploaded", (mi, n), "a path with upload true returns without ensure_pio()+compile_upload()")
-            r.check("called:write_project" in alt and "called:emit" in alt and "called:parse" in alt, "target/exit-wrote-project", (mi, n), "a normal exit of target() skips parse/emit/write_project")
-    # write_project precedes compile_upload: checked as order fact at the compile_upload call
-    for c in calls_in(tgt):
-        if (call_name(c) or "").endswith("compile_upload"):
-            pass
-    # calls inside try blocks that swallow
-    for n in walk_local(tgt):
-        if isinstance(n, ast.Try):
-            r.fail("target/try-block", (mi, n), "target() wraps steps in try/except: tool failures must propagate")
-
-    # ---- C12-FLOW ----------------------------------------------------------------------------
-    r = cx.rule("C12-FLOW", "the source read from __main__'s file is what is parsed; the emitted text is both written (main.cpp) and returned; port/platform/board/libraries flow unchanged into write_project", floor=8)
-
-    def res(n):
-        return loc.resolve(n)
-
-    rets = [n for n in walk_local(tgt) if isinstance(n, ast.Return)]
-    r.check(len(rets) >= 1 and all(x.value is not None for x in rets), "target/returns-value", (mi, tgt), "target() must return the firmware source")
-    emit_calls = [c for c in calls_in(tgt) if call_name(c) == "emit"]
-    parse_calls = [c for c in calls_in(tgt) if call_name(c) == "parse"]
-    wp_calls = [c for c in calls_in(tgt) if call_name(c) == "write_project"]
-    cu_calls = [c for c in calls_in(tgt) if call_name(c) == "compile_upload"]
-    r.check(len(emit_calls) == 1, "target/one-emit", (mi, tgt), f"expected exactly one emit() call, found {len(emit_calls)}")
-    r.check(len(parse_calls) == 1, "target/one-parse", (mi, tgt), f"expected exactly one parse() call, found {len(parse_calls)}")
-    r.check(len(wp_calls) == 1, "target/one-write_project", (mi, tgt), f"expected exactly one write_project() call, found {len(wp_calls)}")
-    if emit_calls and parse_calls and wp_calls:
-        e, p, w = emit_calls[0], parse_calls[0], wp_calls[0]
-        for x in rets:
-            r.check(x.value is not None and res(x.value) is e, "target/return=emit(program)", (mi, x), "the returned value is not the emit() result itself")
-        r.check(len(e.args) == 1 and res(e.args[0]) is p, "target/emit(parse(src))", (mi, e), "emit() must receive the Program returned by parse()")
-        src = res(p.args[0]) if p.args else None
-        ok = isinstance(src, ast.Call) and isinstance(src.func, ast.Attribute) and src.func.attr == "read_text"
-        r.check(ok, "target/parse(read_text)", (mi, p), "parse() must receive the text read from the script file")
-        if ok:
-            enc = kwarg(src, "encoding")
-            r.check(enc is not None and str(lit.try_ev(enc)).lower().replace("-", "") == "utf8", "target/read-utf8", (mi, src), "the script must be read as utf-8")
-            fobj = res(src.func.value)
-            txt = norm(fobj)
-            r.check("sys.modules['__main__'].__file__" in txt or "__main__.__file__" in txt, "target/reads-__main__-file", (mi, src), f"script path is {txt}, expected the __main__ module's __file__")
-        # write_project arguments
-        a0 = res(w.args[0]) if w.args else res(kwarg(w, "project_dir") or ast.Constant(None))
-        r.check("mkdtemp" in norm(a0), "target/project-dir=fresh-mkdtemp", (mi, w), "project directory must be a fresh tempfile.mkdtemp() directory")
-        a1 = w.args[1] if len(w.args) > 1 else kwarg(w, "cpp_code")
-        r.check(a1 is not None and res(a1) is e, "target/write_project(cpp)=emit-result", (mi, w), "write_project must receive the emit() result that is also returned")
-        for k in ("port", "platform", "board"):
-            a = kwarg(w, k)
-            if a is None and k == "port" and len(w.args) > 2:
-                a = w.args[2]
-            r.check(a is not None and isinstance(a, ast.Name) and a.id == k, f"target/write_project[{k}]", (mi, w), f"write_project's {k} must be target()'s {k} parameter unchanged")
-        a = kwarg(w, "lib_deps")
-        la = res(a) if a is not None else None
-        okl = isinstance(la, ast.Call) and call_name(la) == "_collect_required_libraries" and len(la.args) == 1 and res(la.args[0]) is p
-        r.check(okl, "target/write_project[lib_deps]", (mi, w), "lib_deps must be _collect_required_libraries(<the parsed program>)")
-        # the list must not be mutated between collection and use
-        if a is not None and isinstance(a, ast.Name):
-            muts = [c for c in calls_in(tgt) if isinstance(c.func, ast.Attribute) and isinstance(c.func.value, ast.Name) and c.func.value.id == a.id and c.func.attr in ("append", "extend", "remove", "pop", "clear", "insert", "sort", "reverse")]
-            r.check(not muts, "target/lib_deps-not-mutated", (mi, tgt), "required library list is mutated in target()")
-        for c in cu_calls:
-            ca = res(c.args[0]) if c.args else None
-            r.check(ca is not None and ca is a0, "target/compile_upload(project-dir)", (mi, c), "compile_upload must receive the directory the project was written to")
-            r.check((w.end_lineno, w.end_col_offset) <= (c.lineno, c.col_offset) , "target/write-before-upload", (mi, c), "compile_upload must follow write_project")
-
-    # ---- C12-NOEXTRA -------------------------------------------------------------------------
-    r = cx.rule("C12-NOEXTRA", "target() performs no file/process effect itself besides mkdtemp, write_project, compile_upload and reading the script", floor=5)
-    for c in calls_in(tgt):
-        n = call_name(c) or ""
-        attr = c.func.attr if isinstance(c.func, ast.Attribute) else None
-        if n in EFFECT_CALLS or (attr in EFFECT_ATTRS):
-            r.fail(f"target/extra-effect[{n or attr}]", (mi, c), f"unexpected effectful call {n or attr} in target()")
-        else:
-            r.ok(n or attr)
+    rule_target_eval(cx, mi)
 
     # ---- C12-TOOLS ---------------------------------------------------------------------------
     r = cx.rule("C12-TOOLS", "compile_upload, evaluated against a scripted tool over success / failure / death-by-signal statuses of either step: runs `pio run` then `pio run -t upload` in the project dir, exactly once each; a failed build raises and never reaches the upload, a failed upload raises; ensure_pio converts any failure into RuntimeError", floor=8)
@@ -309,31 +177,31 @@ def run(cx):
         else:
             r.check(out.kind == "raise" and argvs[:2] == want and all(a_ == want[1] for a_ in argvs[2:]), f"compile_upload/failed-upload-raises[{st[1]}]", (mp, cu), f"the upload step ends with status {st[1]}: compile_upload -> {out!r}; a tool failure must propagate")
     ep = mp.func("ensure_pio")
-    # every call of ensure_pio probes: no normal exit without having invoked pio (a remembered "already checked" flag would
-    # turn a failed probe into a pass on the next call)
-    pc = CallCount(is_run).run_function(ep, (0, 0))
-    pexits = [s_ for _n, s_ in pc.ret] + ([pc.fall] if pc.fall is not None else [])
-    r.check(bool(pexits) and all(s_[0] >= 1 for s_ in pexits), "ensure_pio/probes-on-every-call", (mp, ep), f"probe invocations on the normal exits of ensure_pio: {pexits}; some path returns without running `pio --version`")
-    tries = [n for n in walk_local(ep) if isinstance(n, ast.Try)]
-    runs_e = [c for c in calls_in(ep) if is_run(c)]
-    r.check(len(runs_e) >= 1, "ensure_pio/probes-pio", (mp, ep), "ensure_pio no longer invokes pio")
-    for c in runs_e:
-        argv = lit.try_ev(c.args[0]) if c.args else None
-        r.check(isinstance(argv, list) and argv[:1] == ["pio"], "ensure_pio/argv", (mp, c), f"probe command is {argv!r}")
-        chk = kwarg(c, "check")
-        r.check(chk is not None and lit.try_ev(chk) is True, "ensure_pio/check=True", (mp, c), "a non-zero exit of the probe must count as failure")
-        inside = [t for t in tries if any(x is c for b in t.body for x in ast.walk(b))]
-        okh = False
-        for t in inside:
-            for h in t.handlers:
-                broad = h.type is None or dotted(h.type) in ("Exception", "BaseException")
-                raises = [x for x in walk_local(h) if isinstance(x, ast.Raise)]
-                all_rt = bool(raises) and all(x.exc is not None and dotted(x.exc.func if isinstance(x.exc, ast.Call) else x.exc) == "RuntimeError" for x in raises)
-                # the handler body must end in a raise on every path
-                last = h.body[-1]
-                if broad and all_rt and isinstance(last, ast.Raise):
-                    okh = True
-        r.check(okh, "ensure_pio/failure->RuntimeError", (mp, c), "a failing/missing pio must surface as RuntimeError (broad handler that always raises RuntimeError)")
+    # ensure_pio against the same scripted tool: it probes on every call, a probe that exits 0 lets it return, every other
+    # outcome - non-zero exit, death by signal, the executable missing or not executable - surfaces as RuntimeError
+
+    class _Sub(dl.Synth):
+        DEVNULL, PIPE, STDOUT = -3, -1, -2
+
+    for label, statuses, exc in (("present", (0,), None), ("exit-1", (1,), None), ("exit-127", (127,), None), ("killed", (-9,), None), ("missing", (0,), "FileNotFoundError"), ("not-executable", (0,), "PermissionError")):
+        for ncalls in (1, 2):
+            log, opq = scripted(statuses)
+            if exc:
+                def boom(cmd, *a_, _log=log, _exc=exc, **kw_):
+                    _log.append((list(cmd) if isinstance(cmd, (list, tuple)) else cmd, kw_.get("cwd"), None))
+                    raise dl.Raised(_exc, "pio")
+                opq["subprocess.run"] = boom
+                opq["subprocess.check_call"] = boom
+                opq["subprocess.call"] = boom
+            outs = []
+            try:
+                for _i in range(ncalls):
+                    outs.append(dl.Interp(mp, opaque=opq, extra_env={"sys": _SysStub(), "subprocess": _Sub()}).call(ep, []))
+            except dl.Unsupported as e:
+                raise AnalysisError(f"ensure_pio left the evaluable subset: {e}")
+            healthy = exc is None and statuses == (0,)
+            ok = len(log) == ncalls and all((l_[0] or [None])[0] == "pio" for l_ in log) and all((o_.kind == "return") if healthy else (o_.kind == "raise" and o_.value == "RuntimeError") for o_ in outs)
+            r.check(ok, f"ensure_pio/{'probes-on-every-call' if healthy else 'failure->RuntimeError'}[{label}]", (mp, ep), f"PlatformIO {label}, ensure_pio() called {ncalls} time(s): outcomes {[repr(o_) for o_ in outs]}, tool invocations {[l_[0] for l_ in log]}; expected {'a normal return' if healthy else 'RuntimeError'} each time after one `pio ...` probe per call")
 
     # ---- project configuration (shared with C13) --------------------------------------------
     plats = lit.table(mp, "SUPPORTED_PLATFORMS")
@@ -344,3 +212,135 @@ def run(cx):
     c13.rule_project_eval(cx, mp, "C12-PROJECT-EVAL")
     c13.rule_libs(cx, mp, "C12-INI-LIBS")
     c13.rule_ini(cx, mp, "C12-INI", all_boards)
+
+
+
+def rule_target_eval(cx, mi):
+    """target() evaluated (checker's interpreter) against scripted collaborators: the validator, the PlatformIO probe, the
+    script file, parse/emit, mkdtemp, write_project and compile_upload are recorders that can be told to fail; every
+    combination of upload x valid/invalid pair x probe ok/missing x script ok/rejected x project ok/failing x build ok/failing
+    is run and the log of calls, the return value and the exception are compared with what the property states.  Helpers
+    that target() is split into are followed like any other code."""
+    import itertools
+    from .. import dl, pe
+    cls, _f = pe.ir_classes()
+    r = cx.rule("C12-ORDER", "target() against scripted collaborators, all fault combinations: an unsupported pair is refused (ValueError) before anything else is called; the PlatformIO probe runs iff upload, before the script is read; a missing PlatformIO (RuntimeError) stops before anything is read or written; compile_upload runs iff upload, after the project was written; every collaborator failure propagates", floor=40, exhaustive=True)
+    rf = cx.rule("C12-FLOW", "on every successful run: the text read from __main__'s file is what is parsed, the parsed program is what is emitted and searched for libraries, the emitted text is written and returned, write_project receives the temp directory, the caller's port/platform/board and exactly the required libraries, compile_upload receives the same directory; nothing else touches the file system or starts a process", floor=8)
+    tgt = mi.func("target")
+
+    class _Sys(dl.Synth):
+        stderr = None
+        stdout = None
+
+    class _Main(dl.Synth):
+        pass
+
+    class _Path(dl.Synth):
+        __dl_native__ = True
+
+        def __init__(self, log, path, text=None, fail=False):
+            self._log, self.path, self._text, self._fail = log, path, text, fail
+
+        def read_text(self, *a_, **k_):
+            self._log.append(("read_text", (self.path,), (("encoding", k_.get("encoding", a_[0] if a_ else None)),)))
+            if self._fail:
+                raise dl.Raised("FileNotFoundError", self.path)
+            return self._text
+
+        def __truediv__(self, other):
+            return _Path(self._log, f"{self.path}/{other}")
+
+    PROG = cls["Program"](setup_body=[cls["ServoDecl"](name="sv", pin=9), cls["LCDDecl"](name="l0", cols=16, rows=2, interface="i2c", i2c_addr=39)], loop_body=[], target_port=None, global_decls=[], helpers=set(), functions=[], ultrasonic_measurements=set())
+    SRC, CPP = "led = Led(13)  # the script text", "// emitted firmware text"
+    n_bad = 0
+    for upload, bad_pair, pio_missing, parse_fails, write_fails, build_fails in itertools.product((True, False), repeat=6):
+        log = []
+
+        def rec(name, fail=None, ret=None):
+            def f_(*a_, **k_):
+                log.append((name, a_, tuple(sorted(k_.items()))))
+                if fail:
+                    raise dl.Raised(fail, name)
+                return ret
+            return f_
+
+        main = _Main()
+        main.__file__ = "/work/sketch.py"
+        sysm = _Sys()
+        sysm.modules = {"__main__": main}
+        opq = {
+            "validate_platform_board": rec("validate", "ValueError" if bad_pair else None),
+            "ensure_pio": rec("ensure_pio", "RuntimeError" if pio_missing else None),
+            "pathlib.Path": lambda p_: p_ if isinstance(p_, _Path) else _Path(log, str(p_), SRC),
+            "Path": lambda p_: p_ if isinstance(p_, _Path) else _Path(log, str(p_), SRC),
+            "parse": rec("parse", "ValueError" if parse_fails else None, PROG),
+            "emit": rec("emit", None, CPP),
+            "tempfile.mkdtemp": rec("mkdtemp", None, "/tmp/reduino-pio-XYZ"),
+            "write_project": rec("write_project", "OSError" if write_fails else None),
+            "compile_upload": rec("compile_upload", "CalledProcessError" if build_fails else None),
+            "print": lambda *a_, **k_: None,
+        }
+        try:
+            out = dl.Interp(mi, opaque=opq, extra_env={**pe.ir_env(), "sys": sysm}).call(tgt, ["/dev/ttyUSB7"], {"upload": upload, "platform": "atmelmegaavr", "board": "nano_every"})
+        except dl.Unsupported as e:
+            raise AnalysisError(f"target() left the evaluable subset: {e}")
+        names = [e_[0] for e_ in log]
+        scen = f"upload={upload}, pair {'unsupported' if bad_pair else 'valid'}, PlatformIO {'missing' if pio_missing else 'present'}, script {'rejected' if parse_fails else 'ok'}, write_project {'fails' if write_fails else 'ok'}, build {'fails' if build_fails else 'ok'}"
+        # expected
+        if bad_pair:
+            want_names, want_exc = ["validate"], "ValueError"
+        elif upload and pio_missing:
+            want_names, want_exc = ["validate", "ensure_pio"], "RuntimeError"
+        else:
+            want_names = ["validate"] + (["ensure_pio"] if upload else []) + ["read_text", "parse"]
+            want_exc = None
+            if parse_fails:
+                want_exc = "ValueError"
+            else:
+                want_names += ["emit", "mkdtemp", "write_project"]
+                if write_fails:
+                    want_exc = "OSError"
+                else:
+                    if upload:
+                        want_names.append("compile_upload")
+                        if build_fails:
+                            want_exc = "CalledProcessError"
+        # emit and the library search may come in either order; mkdtemp may precede emit: compare as constrained order
+        def ordered(seq, a_, b_):
+            return a_ not in seq or b_ not in seq or seq.index(a_) < seq.index(b_)
+        same_calls = sorted(names) == sorted(want_names)
+        order_ok = names[:1] == ["validate"] and all(ordered(names, a_, b_) for a_, b_ in (("validate", "ensure_pio"), ("ensure_pio", "read_text"), ("read_text", "parse"), ("parse", "emit"), ("emit", "write_project"), ("mkdtemp", "write_project"), ("write_project", "compile_upload")))
+        exc_ok = (out.kind == "raise" and out.value == want_exc) if want_exc else out.kind == "return"
+        if same_calls and order_ok and exc_ok:
+            r.ok(None)
+        else:
+            n_bad += 1
+            if n_bad <= 4:
+                tag = "pair-refused-first" if bad_pair else "probe-iff-upload-before-anything" if (upload and pio_missing) or ("ensure_pio" in names) != upload else "upload-iff-requested" if ("compile_upload" in names) != ("compile_upload" in want_names) else "failure-propagates" if not exc_ok else "call-order"
+                r.fail(f"target/{tag}", (mi, tgt), f"{scen}: target() -> {out.kind}{':' + str(out.value) if out.kind == 'raise' else ''} after calling {names}; expected {want_names} and {'exception ' + want_exc if want_exc else 'a normal return'}", detail={"scenario": scen})
+            else:
+                r.stat.obligations += 1
+                r.stat.failed += 1
+        if not want_exc and out.kind == "return" and same_calls:
+            ev = {e_[0]: e_ for e_ in log}
+            kw = dict(ev["write_project"][2])
+            wargs = list(ev["write_project"][1])
+            tmpdir = wargs[0] if wargs else kw.get("project_dir")
+            cppw = wargs[1] if len(wargs) > 1 else kw.get("cpp_code")
+            portw = wargs[2] if len(wargs) > 2 else kw.get("port")
+            libs = kw.get("lib_deps")
+            flow = {
+                "validated-pair=caller's": list(ev["validate"][1]) + [v_ for _k, v_ in ev["validate"][2]] == ["atmelmegaavr", "nano_every"] or dict(ev["validate"][2]) == {"platform": "atmelmegaavr", "board": "nano_every"},
+                "script-file-of-__main__": ev["read_text"][1] == ("/work/sketch.py",) and dict(ev["read_text"][2]).get("encoding") in ("utf-8", "utf8", "UTF-8"),
+                "parsed=text-read": list(ev["parse"][1]) == [SRC],
+                "emitted=parsed-program": len(ev["emit"][1]) == 1 and ev["emit"][1][0] is PROG,
+                "returned=emitted": out.value == CPP,
+                "written=emitted": cppw == CPP,
+                "project-dir=mkdtemp": (getattr(tmpdir, "path", tmpdir) == "/tmp/reduino-pio-XYZ"),
+                "port/platform/board=caller's": portw == "/dev/ttyUSB7" and kw.get("platform") == "atmelmegaavr" and kw.get("board") == "nano_every",
+                "libraries=required": list(libs or []) == ["Servo", "LiquidCrystal_I2C"],
+                "upload-dir=project-dir": (not upload) or getattr(ev["compile_upload"][1][0], "path", ev["compile_upload"][1][0]) == "/tmp/reduino-pio-XYZ",
+            }
+            for k_, ok_ in flow.items():
+                rf.check(ok_, f"target/{k_}", (mi, tgt), f"{scen}: {k_} does not hold (calls: {[(e_[0], [getattr(a_, 'path', a_) if not hasattr(a_, 'setup_body') else '<program>' for a_ in e_[1]], dict(e_[2])) for e_ in log if e_[0] in ('validate', 'write_project', 'compile_upload', 'read_text')]}, returned {str(out.value)[:40]!r})")
+    return r
